@@ -91,6 +91,35 @@ pub fn worker_for(focus: Focus, ctx: &Ctx, mut wc: WorkerCtx) {
             json!({"session": s.name, "upto": upto, "bound": bound, "executions": st.executions, "choice_points": st.max_points, "distinct_outcomes": st.distinct_outcomes,
                    "wall_s": (unit_started.elapsed().as_secs_f64() * 100.0).round() / 100.0}),
         );
+        // logging switched on (the terminal logs through `tracing`; what a log line computes is computed only when a
+        // subscriber listens): the same unit once more with at most one deviation (none for the heavy sessions)
+        // under a subscriber that formats every log line; nothing may be found that the silent runs did not find
+        if found.is_empty() && *upto == s.acts.len() {
+            // a panic inside the terminal while it is being released aborts the process: the published case says that
+            // logging was on, so that the death is attributed and confirmed with logging on
+            let desc_logged = format!("{}:{}:logging", s.name, upto);
+            wc.begin_case(ui as u64, desc_logged.as_bytes());
+            let mut found_logged = vec![];
+            let r = crate::engine::catch(|| {
+                crate::engine::logging::with_logging(|| {
+                    tc::explore_session(focus, s, *upto, if payload > 64 * 1024 { 0 } else { 1 }, 400_000, &mut found_logged, &mut || {})
+                })
+            });
+            match r {
+                Ok(Ok(stl)) => wc.count("executions_with_logging_on", stl.executions),
+                Ok(Err(_)) => {}
+                Err(p) => found.push(tc::Found {
+                    key: format!("logging:{}", p.key()),
+                    what: format!("session {} with a tracing subscriber listening: the terminal panicked: {} ({}:{})", s.name, p.message, p.file, p.line),
+                    witness: json!({"kind": "session-unit", "session": s.name, "upto": upto, "logging": true}),
+                }),
+            }
+            for f in found_logged {
+                let mut w = f.witness.clone();
+                w["logging"] = json!(true);
+                found.push(tc::Found { key: format!("logging:{}", f.key), what: format!("with a tracing subscriber listening: {}", f.what), witness: w });
+            }
+        }
         for f in found {
             wc.violation(&Violation { key: f.key, what: f.what, witness: f.witness });
         }
@@ -108,10 +137,11 @@ fn describe_crash(desc: &[u8], how: &str) -> (String, String, Value) {
     let mut it = d.split(':');
     let name = it.next().unwrap_or("").to_string();
     let upto: usize = it.next().and_then(|x| x.parse().ok()).unwrap_or(0);
+    let logging = it.next() == Some("logging");
     (
-        format!("process-died:{name}"),
-        format!("exploring session {name} (crash point {upto}) killed or stalled the worker ({how})"),
-        json!({"kind": "session-unit", "session": name, "upto": upto}),
+        format!("{}process-died:{name}", if logging { "logging:" } else { "" }),
+        format!("exploring session {name} (crash point {upto}){} killed or stalled the worker ({how})", if logging { " with a tracing subscriber listening" } else { "" }),
+        json!({"kind": "session-unit", "session": name, "upto": upto, "logging": logging}),
     )
 }
 
@@ -234,6 +264,15 @@ pub fn replay(w: &Value) -> Result<(bool, String), String> {
             let all: Vec<tc::Session> = tc::sessions_c16().into_iter().chain(tc::sessions_c17()).collect();
             let s = all.iter().find(|s| s.name == name).ok_or("unknown session")?;
             let mut found = vec![];
+            if w["logging"] == json!(true) {
+                // with a subscriber that formats every log line; a panic is the finding
+                let r = crate::engine::catch(|| crate::engine::logging::with_logging(|| tc::explore_session(Focus::C16, s, upto, 1, 100_000, &mut found, &mut || {})));
+                return Ok(match r {
+                    Err(p) => (true, format!("session {name} with a tracing subscriber listening: the terminal panicked: {} ({}:{})", p.message, p.file, p.line)),
+                    Ok(Err(e)) => return Err(e),
+                    Ok(Ok(st)) => (!found.is_empty(), format!("unit re-explored with logging on: {} executions, {} findings", st.executions, found.len())),
+                });
+            }
             let st = tc::explore_session(Focus::C16, s, upto, 1, 100_000, &mut found, &mut || {})?;
             Ok((false, format!("unit re-explored: {} executions, {} findings", st.executions, found.len())))
         }
